@@ -1,13 +1,66 @@
-(* C12 — pinned statements; proofs live in Proofs/. *)
-From NW Require Import Base.Bytes Model.SchemaTypes Gen.Schema Model.Codec Model.Ids Model.Server.
+(* C12 — Every accepted request gets exactly one reply, carrying its own id.
+   Pinned statements (types pasted verbatim from the proved lemmas by tools/pin.py); proofs in Proofs/Server*.v. *)
+From NW Require Import Base.Bytes Model.SchemaTypes Gen.Schema Model.Codec Model.MsgInfo Model.Ids Model.Server.
+From NW Require Import Proofs.ServerLib Proofs.ServerRoute Proofs.ServerHandlers Proofs.ServerSteps Proofs.ServerPhases.
+From NW Require Import Proofs.ServerInvBase Proofs.ServerInv Proofs.ServerUniq Proofs.ServerInvCor.
 
-(* the model computes: a client connects, identifies and creates a channel *)
-Example C12_model_smoke :
-  let cfg := {| domain := bs "localhost"; has_mod := false; op_auth := false; op_fbp := false; op_fev := false; op_spp := false;
-                proto := []; max_clients := 10; max_subs := 10; max_payload_cfg := 1024; max_inflight := 10; max_message := 1024;
-                keepalive := 60000; min_keepalive := 1000; max_conns := 16; pool_budget := 4194304 |} in
-  let s := run_state cfg init [Open 1; Bytes 1 (bs "CONNECT version=1 heartbeat_interval=0" ++ [NL]) [] [];
-                               Bytes 1 (bs "IDENTIFY username=alice" ++ [NL]) [] [];
-                               Bytes 1 (bs "JOIN id=1 channel=!c1@localhost" ++ [NL]) [] []] in
-  map fst (chans s) = [bs "c1"] /\ map fst (router s) = [bs "alice"].
-Proof. vm_compute. split; reflexivity. Qed.
+Theorem C12_exactly_one_reply :
+  forall (cfg : scfg) (h : N) (m : msg) (p : option (list N)) (c : ctx) 
+      (cn : conn) (me : nid) (i : N),
+    nlookup h (conns (st c)) = Some cn ->
+    c_phase cn = Authenticated ->
+    c_nid cn = Some me ->
+    existsb (N.eqb h) (closing c) = false ->
+    max_inflight cfg <> 0 ->
+    is_request m = true ->
+    (if is_kind m "MOD_DIRECT" then get_onum m "id" = Some i else get_num m "id" = i) ->
+    let c' := on_frame cfg h m p c in
+    let d := new_outs c c' in
+    outs c' = outs c ++ d /\
+    (replies_to h i d <= 1)%nat /\
+    (replies_to h i d = 1%nat \/ closes h d = true) /\
+    (replies_to h i d = 1%nat /\ closes h d = false \/
+     replies_to h i d = 0%nat /\ closes h d = true \/
+     replies_to h i d = 1%nat /\ closes h d = true /\ is_kind m "LEAVE" = true) /\
+    (forall (h' : N) (m' : msg) (p' : option (list N)) (j : N),
+     In (OSend h' m' p') d -> correlation_id schema m' = Some j -> h' = h /\ j = i).
+Proof. exact C12_one_reply. Qed.
+
+Theorem C12_any_frame :
+  forall (cfg : scfg) (h : N) (m : msg) (p : option (list N)) (c : ctx) (cn : conn) (me : nid),
+    nlookup h (conns (st c)) = Some cn ->
+    c_phase cn = Authenticated ->
+    c_nid cn = Some me ->
+    existsb (N.eqb h) (closing c) = false ->
+    max_inflight cfg <> 0 ->
+    is_kind m "PONG" = false ->
+    let i := get_num m "id" in
+    let c' := on_frame cfg h m p c in
+    let d := new_outs c c' in
+    outs c' = outs c ++ d /\
+    (replies_to h i d = 1%nat /\ closes h d = false \/
+     replies_to h i d = 0%nat /\ closes h d = true \/
+     replies_to h i d = 1%nat /\ closes h d = true /\ is_kind m "LEAVE" = true) /\
+    (forall (h' : N) (m' : msg) (p' : option (list N)) (j : N),
+     In (OSend h' m' p') d -> correlation_id schema m' = Some j -> h' = h /\ j = i).
+Proof. exact C12_one_reply_gen. Qed.
+
+Theorem C12_inflight_zero_drops :
+  forall (cfg : scfg) (h : N) (m : msg) (p : option (list N)) (c : ctx) (cn : conn),
+    nlookup h (conns (st c)) = Some cn ->
+    c_phase cn = Authenticated ->
+    existsb (N.eqb h) (closing c) = false ->
+    max_inflight cfg = 0 ->
+    is_kind m "PONG" = false ->
+    st (on_frame cfg h m p c) = st c /\ new_outs c (on_frame cfg h m p c) = [ODrop h].
+Proof. exact C12_no_capacity. Qed.
+
+Theorem C12_reply_then_close_witness :
+  let d := new_outs Witness.wctx (on_frame Witness.wcfg 1 Witness.wleave None Witness.wctx) in
+    is_request Witness.wleave = true /\
+    get_num Witness.wleave "id" = 7 /\
+    replies_to 1 7 d = 1%nat /\
+    closes 1 d = true /\
+    nth_error d 3 = Some (OSend 1 (build "LEAVE_ACK" [(bs "id", VNum 7)]) None) /\
+    nth_error d 4 = Some (OClose 1 (err_msg None "INTERNAL_SERVER_ERROR")).
+Proof. exact Witness.C12_reply_then_close. Qed.
